@@ -2958,6 +2958,16 @@ func (s *ShowTagKeysStatement) String() string {
 		_, _ = buf.WriteString(" FROM ")
 		_, _ = buf.WriteString(s.Sources.String())
 	}
+	if s.TagKeyExpr != nil {
+		_, _ = buf.WriteString(" WITH KEY ")
+		_, _ = buf.WriteString(s.TagKeyOp.String())
+		_, _ = buf.WriteString(" ")
+		if lit, ok := s.TagKeyExpr.(*StringLiteral); ok {
+			_, _ = buf.WriteString(QuoteIdent(lit.Val))
+		} else {
+			_, _ = buf.WriteString(s.TagKeyExpr.String())
+		}
+	}
 	if s.Condition != nil {
 		_, _ = buf.WriteString(" WHERE ")
 		_, _ = buf.WriteString(s.Condition.String())
